@@ -657,7 +657,11 @@ class ILoad(PLoad):
 
     def _get_inp_current(self, phase, phase_conf={}):
         """Get initial current value for solver"""
-        return self._params["ii"]
+        if not phase_conf:
+            return self._params["ii"]
+        if phase not in phase_conf:
+            return self._params["iis"]
+        return abs(phase_conf[phase])
 
     def _solv_inp_curr(self, vi, vo, io, phase, phase_conf={}, pstate={}):
         if abs(vi[0]) == 0.0 or _get_lopt(pstate, "off", 0, False):
